@@ -129,6 +129,11 @@ def mutations(rng, n, ls, idxs, tag):
         add("leaf-repeated-equal", h, root, il[:pos] + [(i, d)] + il[pos:], auth)
         add("leaf-repeated-conflict", h, root, il[:pos] + [(i, "a%d" % (10 ** 6 + i))] + il[pos:], auth)
         add("leaf-repeated-conflict-first", h, root, [(i, "a%d" % (10 ** 6 + i))] + il, auth, paths=False)
+        # the all-zero digest (Digest::default(), term D) as a claimed leaf: must not be confused with "slot not set"
+        add("leaf-repeated-default-first", h, root, [(i, "D")] + il, auth)
+        add("leaf-repeated-default-before", h, root, il[:k] + [(i, "D")] + il[k:], auth)
+        add("leaf-repeated-default-after", h, root, il[:k + 1] + [(i, "D")] + il[k + 1:], auth)
+        add("leaf-default-digest", h, root, il[:k] + [(i, "D")] + il[k + 1:], auth)
         add("leaf-wrong-digest", h, root, il[:k] + [(i, "a%d" % (10 ** 6 + i))] + il[k + 1:], auth)
         add("leaf-inner-node-as-leaf", h, root, il[:k] + [(i, root)] + il[k + 1:], auth, paths=False)
         for i2 in (n - 1, n, n + i, 2 ** 63, 2 ** 63 + i, U - 1, U - n + i, U - n - 1, (U - n) // 2 + i):
